@@ -60,6 +60,14 @@ type Case struct {
 	// LingerMs: the node stays at the crash point this long before it dies (a slow disk or a pause at
 	// that spot); messages it has already handed to the transport get out in the meantime.
 	LingerMs int `json:"linger_ms,omitempty"`
+	// DownFirst > 0: that node is killed before the load starts and comes back with the first group of
+	// restarted nodes: while it is away every acknowledgement rests on the two others, so anything one
+	// of them acknowledges to its peer must be durable on it at that moment.
+	DownFirst int `json:"down_first,omitempty"`
+	// CrashRole ("follower" | "leader"), with DownFirst: the node numbers of the case are roles that are
+	// bound when the cluster is up - CrashNodes[0] stands for the node of that role, DownFirst for a
+	// follower, the remaining number for the third node.
+	CrashRole string `json:"crash_role,omitempty"`
 }
 
 var crashPoints = []string{"ready-start", "before-wal-save", "after-wal-save", "after-append", "after-send", "after-publish", "before-advance",
@@ -193,6 +201,58 @@ func execCase(c Case) kit.Outcome {
 		// the armed nodes may die while becoming ready again; wait only for the cluster as a whole
 		time.Sleep(300 * time.Millisecond)
 	}
+	if c.CrashRole != "" && c.DownFirst > 0 && len(c.CrashNodes) == 1 && len(c.Phases) == 1 {
+		lead := 0
+		for i := 0; i < 50 && lead == 0; i++ {
+			if lead = cl.Leader(); lead == 0 {
+				time.Sleep(100 * time.Millisecond)
+			}
+		}
+		if lead == 0 {
+			return kit.Outcome{Inconclusive: true, Labels: []string{"no-leader-named"}}
+		}
+		var followers []int
+		for n := 1; n <= 3; n++ {
+			if n != lead {
+				followers = append(followers, n)
+			}
+		}
+		// roles -> nodes: (armed, down, third)
+		oldArmed, oldDown := c.CrashNodes[0], c.DownFirst
+		oldThird := 6 - oldArmed - oldDown
+		var armed, down, third int
+		if c.CrashRole == "leader" {
+			armed, down, third = lead, followers[0], followers[1]
+		} else {
+			armed, down, third = followers[0], followers[1], lead
+		}
+		m := map[int]int{oldArmed: armed, oldDown: down, oldThird: third}
+		ren := func(xs []int) []int {
+			out := make([]int, len(xs))
+			for i, x := range xs {
+				out[i] = m[x]
+			}
+			return out
+		}
+		p := c.Phases[0]
+		p.Writers, p.Kill, p.Restart = ren(p.Writers), ren(p.Kill), ren(p.Restart)
+		c.Phases = []Phase{p}
+		c.CrashNodes, c.DownFirst = []int{armed}, down
+		o.Labels = append(o.Labels, "armed-role:"+c.CrashRole)
+	}
+	if c.DownFirst > 0 {
+		cl.Kill(c.DownFirst)
+		o.Labels = append(o.Labels, "one-node-down-before-load")
+		var up []int
+		for n := 1; n <= 3; n++ {
+			if n != c.DownFirst {
+				up = append(up, n)
+			}
+		}
+		if err := cl.WaitServing(20*time.Second, up); err != nil { // a new leader may have to be elected first
+			return kit.Outcome{Inconclusive: true, Labels: []string{"two-nodes-not-serving"}}
+		}
+	}
 	lg := &ledger{strs: map[string]write{}, list: map[int][]write{}, hash: map[string]write{}, set: map[string]write{},
 		vols: map[string]write{}, persisted: map[string]bool{}, persistAcked: map[string]time.Time{}}
 	seq := 0
@@ -310,7 +370,10 @@ func execCase(c Case) kit.Outcome {
 			if c.ArmAtMs > 0 {
 				time.Sleep(time.Duration(c.ArmAtMs) * time.Millisecond)
 				for _, n := range c.CrashNodes {
-					_ = os.WriteFile(filepath.Join(cl.Nodes[n-1].Dir, "crash-now"), []byte(fmt.Sprintf("%s:%d:%d", c.CrashPoint, c.CrashNth, c.LingerMs)), 0o644)
+					// written under another name and renamed: the node must never see the file half-written
+					tmp := filepath.Join(cl.Nodes[n-1].Dir, "crash-now.tmp")
+					_ = os.WriteFile(tmp, []byte(fmt.Sprintf("%s:%d:%d", c.CrashPoint, c.CrashNth, c.LingerMs)), 0o644)
+					_ = os.Rename(tmp, filepath.Join(cl.Nodes[n-1].Dir, "crash-now"))
 				}
 			}
 			wg.Wait()
@@ -322,7 +385,16 @@ func execCase(c Case) kit.Outcome {
 				cl.SetNodeEnv(n, nil) // the restart runs without the self-kill
 				_ = os.Remove(filepath.Join(cl.Nodes[n-1].Dir, "crash-now"))
 			}
-			kit.C.Label(fmt.Sprintf("crashpoint-nodes-that-died:%d-of-%d", died, len(p.Kill)), 1)
+			o.Labels = append(o.Labels, fmt.Sprintf("crashpoint-nodes-that-died:%d-of-%d", died, len(p.Kill)))
+			lg.mu.Lock()
+			nack := lg.incrAck
+			for _, w := range lg.strs {
+				if w.acked {
+					nack++
+				}
+			}
+			lg.mu.Unlock()
+			o.Labels = append(o.Labels, fmt.Sprintf("acked-before-crash>=%d", nack/10*10))
 			kill()
 		} else if p.DuringLoad {
 			time.Sleep(time.Duration(p.KillAtMs) * time.Millisecond)
@@ -374,6 +446,11 @@ func execCase(c Case) kit.Outcome {
 						armed = true
 					}
 				}
+				for _, a := range p.Restart {
+					if a == n {
+						armed = true // comes back with the first group
+					}
+				}
 				if !armed {
 					cl.Kill(n)
 					rest = append(rest, n)
@@ -394,6 +471,12 @@ func execCase(c Case) kit.Outcome {
 				return o
 			}
 			o.Labels = append(o.Labels, "majority-restarted-first")
+			// what was acknowledged must already be there: these two are a majority, and a node that
+			// returns later can only follow them
+			if msg := verifyNodes(cl, lg, p.Restart); msg != "" {
+				o.Fail = fmt.Sprintf("phase %d: nodes %v restarted first and serve as the majority (the others are still down): %s", pi, p.Restart, msg)
+				return o
+			}
 			for _, n := range rest {
 				if err := cl.StartNode(n); err != nil {
 					return kit.Outcome{Fail: "infrastructure: restart: " + err.Error()}
@@ -452,10 +535,12 @@ func execCase(c Case) kit.Outcome {
 
 // verify reads every key through every node and checks it against the ledger: acknowledged writes are
 // mandatory, unacknowledged in-flight ones optional, nothing else may appear.
-func verify(cl *srv.Cluster, lg *ledger) string {
+func verify(cl *srv.Cluster, lg *ledger) string { return verifyNodes(cl, lg, []int{1, 2, 3}) }
+
+func verifyNodes(cl *srv.Cluster, lg *ledger, nodes []int) string {
 	lg.mu.Lock()
 	defer lg.mu.Unlock()
-	for n := 1; n <= 3; n++ {
+	for _, n := range nodes {
 		cn, err := cl.Dial(n)
 		if err != nil {
 			return fmt.Sprintf("node %d refuses connections after it served a write: %v; %.600s", n, err, cl.CrashReport(n))
@@ -721,6 +806,32 @@ func TestTornLogTail(t *testing.T) {
 		q = 1
 	}
 	kit.Check(t, kit.Spec[Case]{Sub: "crash", Quick: q, Thorough: 6, Gen: genTornCase, Exec: execCase, NoShrink: !kit.Thorough()})
+}
+
+// genLonePeerCase: node T is down from the start, F carries a crash point, the load runs against L and
+// F; after F died L is killed too, F and T come back first and must serve on their own. Whatever L
+// acknowledged to a client rested on F's reply alone, so it must be in F's log.
+func genLonePeerCase(t *rapid.T) Case {
+	perm := rapid.Permutation([]int{1, 2, 3}).Draw(t, "roles")
+	f, down, other := perm[0], perm[1], perm[2]
+	c := Case{CrashPoint: rapid.SampledFrom([]string{"ready-start", "before-wal-save", "after-wal-save", "after-append", "after-send", "after-publish", "before-advance"}).Draw(t, "point"),
+		CrashNth: rapid.SampledFrom([]int{1, 1, 2, 3, 5}).Draw(t, "nth"), CrashNodes: []int{f}, KillRest: true, DownFirst: down,
+		ArmAtMs: rapid.SampledFrom([]int{10, 25, 50, 80}).Draw(t, "armat"), LingerMs: rapid.SampledFrom([]int{5, 10, 20}).Draw(t, "linger"),
+		CrashRole: rapid.SampledFrom([]string{"follower", "follower", "leader"}).Draw(t, "role")}
+	p := Phase{PerWriter: 60, Kinds: "all", Kill: []int{f}, Restart: []int{f, down}}
+	if rapid.Bool().Draw(t, "downfirst") {
+		p.Restart = []int{down, f}
+	}
+	nw := rapid.IntRange(3, 6).Draw(t, "writers")
+	for w := 0; w < nw; w++ {
+		p.Writers = append(p.Writers, []int{other, other, f}[rapid.IntRange(0, 2).Draw(t, "wnode")])
+	}
+	c.Phases = []Phase{p}
+	return c
+}
+
+func TestLonePeerLosesTail(t *testing.T) {
+	kit.Check(t, kit.Spec[Case]{Sub: "crash", Quick: 2, Thorough: 12, Gen: genLonePeerCase, Exec: execCase, NoShrink: !kit.Thorough()})
 }
 
 func TestMajorityLosesTail(t *testing.T) {
